@@ -30,10 +30,10 @@ def plan(tier):
     def ciph_ll(n): return [LL('src/%s-cipher.c' % n, flags=('-msse2',), ct=True, opt=opt)]
     # ---- single-block API
     for case0, n, blk, rr in ((0, 'skinny128', 16, (40, 48, 56)), (10, 'skinny64', 8, (32, 36, 40))):
-        kls = [blk, blk + 5, 3 * blk] if tier == 'quick' else list(range(blk, 3 * blk + 1))
+        kls = [blk, blk + 5] if tier == 'quick' else list(range(blk, 3 * blk + 1))
         for kl in kls:
             qs.append(cq('%s:set_key:%d' % (n, kl), '%s_set_key with a %d-byte key' % (n, kl), {'CASE': case0 + 1, 'KLEN': kl}, ciph_ll(n)))
-        for kl in ([blk, 2 * blk] if tier == 'quick' else list(range(blk, 2 * blk + 1))):
+        for kl in ([2 * blk] if tier == 'quick' else list(range(blk, 2 * blk + 1))):       # 2*blk exercises TK1 (tweak), TK2 and TK3
             qs.append(cq('%s:set_tweaked_key:%d' % (n, kl), '%s_set_tweaked_key with a %d-byte key' % (n, kl), {'CASE': case0 + 2, 'KLEN': kl}, ciph_ll(n)))
         for tl in ([1, blk] if tier == 'quick' else list(range(1, blk + 1))):
             for r in (rr[1:] if tier == 'thorough' else rr[2:]):
@@ -87,7 +87,7 @@ def plan(tier):
     return dict(queries=qs, level='model_checking', pre=[pre_layout, pre_gen_layout],
                 functions=['every public single-block function of the three ciphers', 'every CTR back end: encrypt, set_counter, set_key, set_tweak (generic ones from src/*-ctr.c, vector ones from src/*-ctr-vec*.c)', 'vector batch functions of parallel ECB',
                            'all as clang-14 IR with branch/address hooks emitted by ll2c'],
-                bounds={'public parameters': 'key lengths (quick: smallest, one in-between, largest; thorough: every length), tweak and counter lengths, round counts as shipped for single-block functions, 2 rounds (Mantis 5) for CTR / parallel glue, Mantis mode, (offset, size) points of the CTR grid',
+                bounds={'public parameters': 'key lengths (quick: smallest and one in-between for set_key, the largest through set_tweaked_key; thorough: every length), tweak and counter lengths, round counts as shipped for single-block functions, 2 rounds (Mantis 5) for CTR / parallel glue, Mantis mode, (offset, size) points of the CTR grid',
                         'secrets': 'key, tweak, counter, data and the whole prior context except round count and keystream offset: two independent symbolic assignments', 'compiler': 'clang-14 %s IR (quick -O1, thorough -O3 as shipped); gcc machine code is outside the reach of this technique' % opt,
                         'events': 'conditional branches, switches, loads, stores, memory intrinsics (address and length); select instructions are treated as constant-time'},
                 outside=['gcc code generation', 'dispatchers and init (no secrets)', 'driver loops of parallel ECB (sizes are public; C07)'],
